@@ -401,6 +401,9 @@ def toy_tie(S):
             for l in S.corpus:
                 if l[0] in "IO" and l.split(" ")[1] == drv:
                     ls.append(l)
+            for line, info in TG.directed_istream(S.bufsz_i, drv) + TG.directed_ostream(S.bufsz_o, drv):
+                ls.append(line)
+                infos[line] = info
             for i in range(n_small_i + n_big_i):
                 line, info = TG.gen_istream_case(rnd, S.bufsz_i, drv, i >= n_small_i)
                 ls.append(line)
@@ -420,18 +423,30 @@ def toy_tie(S):
             elif l not in infos and l[0] == "O":
                 infos[l] = dict(plain=b"".join(TG.spec_bytes(c) for c in l.split(" ")[7].split(";")))
 
+    NCH = 3     # the model side of a driver's batch is split into NCH processes (big cases cost seconds each)
+
     def job(arg):
-        d, side = arg
+        d, side, k = arg
         ls = batches[d]
         if side == "c":
             return arg, run_lines(S.harness, ls, ctx.scratch, "c-" + d, hang_timeout=6.0, total_timeout=150)
-        return arg, run_lines(S.model, ls, ctx.scratch, "m-" + d, hang_timeout=200.0, total_timeout=600, big_stack=True,
-                              prefix_lines=["B %d %d" % (S.bufsz_i, S.bufsz_o)])
+        part = ls[k::NCH]
+        return arg, run_lines(S.model, part, ctx.scratch, "m%d-%s" % (k, d), hang_timeout=200.0, total_timeout=600,
+                              big_stack=True, prefix_lines=["B %d %d" % (S.bufsz_i, S.bufsz_o)])
 
     out = {}
-    with ThreadPoolExecutor(max_workers=10) as ex:
-        for arg, r in ex.map(job, [(d, s) for d in batches for s in ("c", "m")]):
-            out[arg] = r
+    jobs = [(d, "c", 0) for d in batches] + [(d, "m", k) for d in batches for k in range(NCH)]
+    parts = {}
+    with ThreadPoolExecutor(max_workers=14) as ex:
+        for arg, r in ex.map(job, jobs):
+            parts[arg] = r
+    for d in batches:
+        out[(d, "c")] = parts[(d, "c", 0)]
+        merged = [None] * len(batches[d])
+        for k in range(NCH):
+            for j, r in enumerate(parts[(d, "m", k)]):
+                merged[k + j * NCH] = r
+        out[(d, "m")] = merged
     n_eval = 0
     nontriv = 0
     tie_bad = []
@@ -479,7 +494,7 @@ def toy_tie(S):
                 tie_bad.append((l, rc[i], rm[i]))
     # O cases: decode what the implementation wrote with the Python reference decoder of the toy format
     o_lines = [(d, i, l) for d, ls in batches.items() for i, l in enumerate(ls)
-               if l[0] == "O" and out[(d, "c")][i].startswith("O OK") and len(infos[l]["plain"]) < 70000]
+               if l[0] == "O" and out[(d, "c")][i].startswith("O OK") and len(infos[l]["plain"]) < 1200000]
     if o_lines:
         dumps = []
         lines2 = []
@@ -546,6 +561,13 @@ def real_component(S):
             lines.append("I r%s 0 0 0 F%s %s %s >%s" % (codec, p, ",".join(map(str, ws)) or "-",
                                                        ",".join(["%d:%d" % (w, t)] * nops), d))
             meta.append(("dec", codec, z, d, None))
+            k += 1
+        # directed: incompressible data filling inbuf exactly / to one byte at flush time (the stream does not fit
+        # outbuf: drain-on-finish), and two full inbufs
+        for spec in ("P%d:4242" % S.bufsz_o, "P%d:4243" % (S.bufsz_o - 1), "P%d:4244;P%d:4245" % (S.bufsz_o, S.bufsz_o)):
+            d = os.path.join(ctx.scratch, "rc.%d.out" % k)
+            lines.append("O r%s 0 0 0 0 0 %s >%s" % (codec, spec, d))
+            meta.append(("enc", codec, b"".join(TG.spec_bytes(c) for c in spec.split(";")), d, spec))
             k += 1
         for i in range(n_enc):
             big = i % 2 == 0
